@@ -149,22 +149,22 @@ theorem tamper_file_control_rejected (f : VFile) (c' : VFileControl) (hacc : fil
 
 open Ach.ReaderSM in
 /-- **a transfer cut short before the file control record** is rejected: the records before the cut are a prefix of
-what the Writer emitted ahead of the control; `tail` is the remainder of a record the cut fell into, if any — it keeps
-its first column, so it is not a file control record -/
-theorem truncated_before_control_rejected (t : Tree) (ht : WFTree t) (j : Nat) (tail : List Rec)
-    (htail : ∀ r ∈ tail, r.isFC = false) :
-    (read ((body t).take j ++ tail)).errs ≠ [] := by
+what the Writer emitted ahead of the control (however they validate); `tail` is the remainder of a record the cut fell
+into, if any — it keeps its first column, so it is not a file control record -/
+theorem truncated_before_control_rejected (t : Tree) (ht : WFTree t) (j : Nat) (vs : List Bits) (tail : List (Rec × Bits))
+    (htail : ∀ r ∈ tail, r.1.isFC = false) :
+    (read (((body t).take j).zip vs ++ tail)).errs ≠ [] := by
   intro h
-  have := Dispatch.read_truncated_body t ht j tail htail
+  have := Dispatch.read_truncated_body t ht j vs tail htail
   rw [h] at this
   simp at this
 
 open Ach.ReaderSM in
 /-- **cut inside the file control record**: same tree, the cut record as control; accepted by the Reader only if that
-record validates -/
-theorem truncated_inside_control (t : Tree) (ht : WFTree t) (ok okAdv : Bool) (id : Nat) :
-    read (body t ++ [.fc ok okAdv id]) = expected { t with control := .fc ok okAdv id } :=
-  Dispatch.read_truncated_control t ht ok okAdv id
+record validates (`vc`) -/
+theorem truncated_inside_control (t : Tree) (ht : WFTree t) (id : Nat) (vc : Bits) :
+    read (allOK (body t) ++ [(.fc id, vc)]) = expected { t with control := .fc id } vc :=
+  Dispatch.read_truncated_control t ht id vc
 
 /-- …and then validation either refuses the file or the control's integrity fields are all what they were -/
 theorem truncated_control_rejected_or_same (f : VFile) (c' : VFileControl) (hacc : fileValidate {} f = true) :
@@ -204,9 +204,9 @@ theorem file_control_columns :
 open Ach.ReaderSM in
 /-- **cut inside the blocking filler**: with any number of whole filler records the file reads as itself
 (`Dispatch.read_emit`); a last filler cut after its first column is a second file control record and is refused -/
-theorem truncated_in_filler_same_or_rejected (t : Tree) (ht : WFTree t) (n : Nat) :
-    read (emit t ++ List.replicate n .filler) = expected t ∧
-    ∀ a b i, (read (emit t ++ List.replicate n .filler ++ [.fc a b i])).errs ≠ [] :=
-  ⟨Dispatch.read_emit t ht n, fun a b i => Dispatch.read_truncated_filler t ht n a b i⟩
+theorem truncated_in_filler_same_or_rejected (t : Tree) (ht : WFTree t) (vc : Bits) (fill : List Bits) :
+    read (emitted t vc fill) = expected t vc ∧
+    ∀ i v, (read (emitted t vc fill ++ [(.fc i, v)])).errs ≠ [] :=
+  ⟨Dispatch.read_emit t ht vc fill, fun i v => Dispatch.read_truncated_filler t ht vc fill i v⟩
 
 end Ach.Props.C04
